@@ -126,6 +126,11 @@ def main(tier, only=None):
                            defines=("MH_N=%d" % len(sq), "MH_0=%d" % pad[0], "MH_1=%d" % pad[1], "MH_2=%d" % pad[2]),
                            desc="operations issued on the macro table by the driver for this -D/-U command line"))
         e1.run_set(chk, "c14/driver.c", hs, workers=8, extra_src=[os.path.join(vf.REPO, "strings.c")])
+    if not only or "history" in only or "macros" in only:
+        chk.bounds += ["history/macro-table: every history of <= 4 operations over {#define A (two bodies/kinds), #undef A, builtin A, -D A, #define B, #undef B} through the real "
+                       "add_macro/define_macro/undef_macro/add_builtin, observed through the real find_macro (symbolic history)"]
+        e1.run_set(chk, "c17/macros.c", [e1.H("h_macro_history", "history/macro-table/last-operation-wins", unwind=12, timeout=600,
+                                              desc="real macro-table operations of preprocess.c under a symbolic history")], workers=2)
     history_replays(chk)
     if os.environ.get("VERIF_VERBOSE"):
         for o in chk.obl:
